@@ -94,6 +94,12 @@ func (m *recoveryMessage) GetPrepareRequest(p dbft.ConsensusPayload[crypto.Uint2
 		transactionHashes: m.prepareRequest.TransactionHashes(),
 	})
 	req.SetValidatorIndex(ind)
+	if m.preparationHash == nil {
+		// The hash isn't transmitted along with PrepareRequest, restore it
+		// for PrepareResponses to be reconstructed properly.
+		h := req.Hash()
+		m.preparationHash = &h
+	}
 
 	return req
 }
